@@ -22,8 +22,9 @@ var lgThresholds = []int{8, 16, 32, 33, 64, 65, 128, 256, 257, 512, 513, 1024, 4
 var lgCaps = []int{848, 1280, 1792, 2560, 3408, 5120}
 
 // lgPoints returns, in ascending order, the sizes ≤ n at which a large case makes a FULL observation of the
-// state: every threshold T and capacity, T/2, T/4 and T/8, each with its two neighbours; 0..small; and n itself.
-func lgPoints(n, small int) []int {
+// state: every threshold T (and, for slice-backed structures, every capacity of lgCaps), T/2, T/4 and T/8, each
+// with its two neighbours; 0..small; and n itself.
+func lgPoints(n, small int, caps bool) []int {
 	set := map[int]bool{n: true}
 	add := func(v int) {
 		for d := -1; d <= 1; d++ {
@@ -32,7 +33,11 @@ func lgPoints(n, small int) []int {
 			}
 		}
 	}
-	for _, t := range append(append([]int{}, lgThresholds...), lgCaps...) {
+	ts := append([]int{}, lgThresholds...)
+	if caps {
+		ts = append(ts, lgCaps...)
+	}
+	for _, t := range ts {
 		add(t)
 		add(t / 2)
 		add(t / 4)
